@@ -53,6 +53,7 @@ R08.8 replace-type is looked up, for parameters and for results, in the config m
 		if md := FuncDecl(ip, "TemplateGenerator.methodData"); md == nil {
 			c.Fail("R08.8", "methodData|missing", "internal/template_generator.go", "methodData not found")
 		} else {
+			ruleReplacementMemoKey(c, loadRepo(c, packages.LoadSyntax, "", "./template"), "R08.8")
 			sub := newCtx("C08", c.Tier)
 			sub.known = nil
 			ruleReplacementKey(sub, ri, ip, md)
